@@ -30,7 +30,7 @@ THEOREMS = [P + t for t in [
     "add_layout_words", "pow_word_base_never_resizes", "pow_dword_base_never_resizes",
     "skeleton_ops_ok_round4b", "skeleton_ops_ok_sqrt_rem", "max_layout_serves_each", "skeleton_ops_ok_ibig_bits",
     "skeleton_ops_ok_round5", "gcd_skeleton_value_is_c12_loop", "sqrt_leftover_is_kernel_state",
-    "scratch_formulas_regenerated"]] + [
+    "scratch_formulas_regenerated", "memory_end_does_not_wrap"]] + [
     "Dashu.Props.C17Link." + t for t in ["gcd_skeleton_kernel_is_c12", "rawToAscii_ascii", "digit_writer_all_writes_in_bounds",
                                          "digit_writer_write_keeps_len"]]
 
@@ -78,7 +78,14 @@ REFINED = [
     "gcd_ext_large: by-value large operands ARE the work buffers, gcd left in the smaller operand's buffer, |b| in the larger "
     "one's, |a| = (rhs*|b| -+ g)/lhs copied out of the scratch slice into a fresh buffer with the overflow word pushed, or "
     "Repr::zero() when the residue is shorter than lhs; scratch = add(clone, max(gcd_ext, post)); result order swapped back); "
-    "values from C12's gcdExtSmall / lehmerExtKernel / xgcdPrimWide",
+    "values from C12's gcdExtSmall / lehmerExtKernel / xgcdPrimWide; IBig gcd_ext and the mixed UBig/IBig operand pairs of gcd / "
+    "gcd_ext in all four forms (fragMixedGcd: into_sign_repr / into_repr glue, coefficients multiplied by the operand signs = "
+    "with_sign, no storage event); `!IBig` / `!&IBig` as public operators (fragNot: add_one / sub_one in the operand's own buffer by "
+    "value, in a copy by reference, push_resizing(1) on carry); UBig div_euclid / rem_euclid / div_rem_euclid (forward to the "
+    "div / rem / div_rem repr functions) and DivRemAssign::div_rem_assign (mem::take + div_rem, forms av / ar) driven against the "
+    "div / rem / div_rem skeletons",
+    "memory.rs:58 MemoryAllocation::memory(): `start.wrapping_add(layout.size())` does not wrap (theorem memory_end_does_not_wrap; "
+    "the one allocator fact used — the block lies inside the address space — is an explicit hypothesis)",
     "fmt/digit_writer.rs DigitWriter::{write, flush} (the only hand-indexed byte buffer of the formatting path and its "
     "`unsafe { str::from_utf8_unchecked }`): linked by theorem to C07's mirrored writer (Props/C17Link "
     "digit_writer_all_writes_in_bounds, digit_writer_write_keeps_len) — for EVERY sequence of writes no slice range leaves "
@@ -98,14 +105,14 @@ REFINED = [
 FRONTIER = [
     "NOT modelled: len/is_zero/is_one union reads "
     "(87,393,407: no memory access outside the struct), "
-    "unsafe impl Send/Sync (buffer.rs:35,38; repr.rs:62,65), Memory's Debug offset_from(27); MemoryAllocation::memory()'s "
-    "`start.wrapping_add(size)` (no wrap: follows from the allocator contract, not proved)",
+    "unsafe impl Send/Sync (buffer.rs:35,38; repr.rs:62,65: a type-system claim, no executable content), Memory's Debug "
+    "offset_from(27) (debug formatting only)",
     "NOT modelled: arch/*/add.rs intrinsics (safe code: `core::arch` add-with-carry intrinsics on values, no pointer; owned by C19's "
     "Gen/ArchAdd tie)",
     "arithmetic skeletons NOT mirrored op by op: nth_root for n >= 3 (a Newton loop over the PUBLIC operations pow / div / mul / "
-    "add whose skeletons are mirrored, but the primitive-operand forms `x * usize`, `/ usize` it uses are not), IBig gcd_ext (sign "
-    "multiplication of the coefficients) and the mixed UBig/IBig operand forms of gcd / gcd_ext, IBig `!` as a public operator, "
-    "the Euclidean division family, DivRemAssign, the primitive-operand forms, to_*_bytes (a Vec<u8>, not a word "
+    "add whose skeletons are mirrored, but the primitive-operand forms `x * usize`, `/ usize` it uses are not), "
+    "IBig's Euclidean division family (div_euclid / rem_euclid / div_rem_euclid of IBig: a second add_one / subtraction on the "
+    "div_rem results), the primitive-operand forms, to_*_bytes (a Vec<u8>, not a word "
     "buffer) and parsing/printing; they are covered by the general theorem only through their final Repr::from_buffer / from_dword "
     "(any history of Buffer ops followed by from_buffer is canonical) and by the value-level exploration",
     "gcd / gcd_ext / sqrt skeletons: that lehmer.rs / root.rs stay inside the slices they are handed (`x[..y.len()]`, `t0[..qt1_len]`, "
@@ -135,7 +142,7 @@ RULE = ("mem.buf: typed histories of 1..40 operations over 8 registers (empty | 
         "live register; at the end live bytes/pointers back to the start and no double free. "
         "mem.arith (one public operation in one ownership form; result layout + exact allocator events + drops against the storage "
         "skeleton): operand lengths 0..40 (thorough 60, scratch classes up to 800) words x patterns x forms per operation; round 5: "
-        "sqrt (7 patterns, roots with zero low half, q_top, k^2-1/k^2/k^2+1 for k of every bit length), gcd/igcd/gcd_ext (coprime, common "
+        "`!IBig` (all-ones carries, powers of two losing a word), sqrt (7 patterns, roots with zero low half, q_top, k^2-1/k^2/k^2+1 for k of every bit length), gcd/gcd_ext of UBig, IBig and mixed pairs (coprime, common "
         "factor of 1..4 words, divides, equal, +-1, shifted, Fibonacci pairs, (0,0), scratch and double-word-guess thresholds); "
         "E1 extremes: every usize argument of shl/shr/ishl/ishr/set_bit/clear_bit/clear_high_bits/split_bits/pow at 0, 1, W-1..2W, "
         "2^31, 2^32-1, 2^32, 2^32+k, 2^63, usize::MAX-k (growth operations only where the result is small or the request exceeds "
@@ -176,7 +183,7 @@ LEVEL_TEXT = ("Machine-checked Lean 4 theorems over an executable ledger model o
               "state and the same allocator event stream after every operation. Public operations enter the theorems as storage "
               "skeletons (the exact sequence of Buffer/Repr calls, word-level kernels abstracted to an arbitrary overwrite) that are "
               "compared with the real allocator event stream: UBig + - * / % div_rem & | ^ << >> sqr pow, set_bit/clear_bit/"
-              "clear_high_bits/split_bits/next_power_of_two, sqrt_rem, sqrt, gcd, gcd_ext, from_le/be_bytes, IBig + - * / % div_rem & | ^ << >> pow gcd, all ownership "
+              "clear_high_bits/split_bits/next_power_of_two, sqrt_rem, sqrt, gcd, gcd_ext, from_le/be_bytes, IBig + - * / % div_rem & | ^ ! << >> pow gcd gcd_ext, mixed UBig/IBig gcd / gcd_ext, all ownership "
               "forms incl. the compound assignments; where the storage events depend on the state a number-theory kernel leaves in "
               "the buffers (sqrt's raw work buffer, which operand copy holds the gcd, the lengths of the Bezout coefficients) that state "
               "is computed by property C12's mirrored kernels, and the kernel used is proved to be C12's (value component of the "
@@ -185,8 +192,8 @@ LEVEL_TEXT = ("Machine-checked Lean 4 theorems over an executable ledger model o
               "theorem to C07's mirrored writer (all write sequences). "
               "memory.rs layout arithmetic (array_layout/add_layout/max_layout, MemoryAllocation::new/Drop) is proved valid, its "
               "allocate_too_much arm dead, add_layout sufficient for its two bump consumers. PARTIAL: Rust-level UB beyond "
-              "bounds/lifetime (aliasing, transmute validity, uninitialised reads) is not decided by proof; nth_root (n >= 3), IBig gcd_ext and mixed UBig/IBig forms, parsing/printing, "
-              "Euclidean division and primitive-operand forms are covered only through their final from_buffer and explored by "
+              "bounds/lifetime (aliasing, transmute validity, uninitialised reads) is not decided by proof; nth_root (n >= 3), parsing/printing, "
+              "IBig's Euclidean division and the primitive-operand forms are covered only through their final from_buffer and explored by "
               "value-level histories with invariant checks and by Miri runs of the same histories; that a skeleton never hits an "
               "internal assert is observed, not proved (except the pow result-buffer length bound).")
 LEVEL_NOTE = ("Trusted: Lean kernel; axioms propext/Classical.choice/Quot.sound; vlib/extract.py for the two policy formulas; the "
@@ -1035,7 +1042,9 @@ def miri_cases(rng, tier):
               ("arith", ["igcd", "rv", hx(-(B3 << 70)), hx((1 << 300) + 12345)]),
               ("arith", ["gcdext", "vv", hx((B3 << 64) + 12345), hx(B3 - 99)]),
               ("arith", ["gcdext", "rr", hx(B3 - 99), hx((B3 << 64) * (B3 - 99))]),
-              ("arith", ["gcdext", "rv", hx(12345), hx((B3 << 64) + 77)])]
+              ("arith", ["gcdext", "rv", hx(12345), hx((B3 << 64) + 77)]),
+              ("arith", ["igcdext", "vr", hx(-((B3 << 64) + 12345)), hx(-(B3 - 99))]), ("arith", ["inot", "v", hx(B3), "d:0"]),
+              ("arith", ["inot", "r", hx(-(1 << 192)), "d:0"])]
     if tier == "thorough":
         for _ in range(700):
             hists.append(("buf", buf_history(rng, rng.choice([6, 12, 25]))))
@@ -1069,18 +1078,40 @@ def miri_cases(rng, tier):
     try:
         # first (small) invocation builds; later chunks run in parallel on the warm target dir
         csz = 7 if tier == "quick" else 60
-        chunks = [hists[:4]] + [hists[i:i + csz] for i in range(4, len(hists), csz)]
+        first = 1 if warm else 4     # the first invocation (re)builds; with a warm directory it only has to notice that
+        chunks = [hists[:first]] + [hists[i:i + csz] for i in range(first, len(hists), csz)]
         results = []
         v, err = _miri_run(tdir, chunks[0], 900)
+        if warm and (v is None or any(x is None or str(x).startswith("ub(") for x in v.values())):
+            # a stale or damaged warm target directory must never be reported as a finding: rebuild from scratch once
+            shutil.rmtree(tdir, ignore_errors=True)
+            os.makedirs(tdir, exist_ok=True)
+            v, err = _miri_run(tdir, chunks[0], 900)
         if v is None or all(x is None for x in v.values()):
             MIRI_NOTE["skipped"] = "miri unavailable or build failed: %s" % (err or "")[-200:]
             log("C17: Miri run skipped (%s)" % MIRI_NOTE["skipped"][:120])
             return
         results.append((chunks[0], v))
         from concurrent.futures import ThreadPoolExecutor
-        with ThreadPoolExecutor(max_workers=6) as ex:
-            for ch, (v, err) in zip(chunks[1:], ex.map(lambda c: _miri_run(tdir, c, 3000), chunks[1:])):
+        with ThreadPoolExecutor(max_workers=6 if tier == "thorough" else 7) as ex:
+            # Miri is supporting evidence: on a heavily loaded machine the thorough sample is cut at a wall-clock budget (chunks not
+            # started by then are not run; the count is recorded) so that the tier stays within its time limit
+            budget = float(os.environ.get("VERIF_MIRI_BUDGET", "0")) or (10 ** 9 if tier == "quick" else 1000.0)
+            skipped = [0]
+
+            def _chunk(c):
+                if time.time() - t0 > budget:
+                    return None
+                return _miri_run(tdir, c, 3000)
+            for ch, res in zip(chunks[1:], ex.map(_chunk, chunks[1:])):
+                if res is None:
+                    skipped[0] += len(ch)
+                    continue
+                v, err = res
                 results.append((ch, v or {}))
+            if skipped[0]:
+                MIRI_NOTE["not_run_time_budget"] = skipped[0]
+                log("C17: Miri time budget reached, %d histories not run" % skipped[0])
         for ch, v in results:
             pending = False
             for i, (kind, toks) in enumerate(ch):
@@ -1273,6 +1304,23 @@ def round4_cases(rng, tier):
                         # disjoint bits: `&` gives 0 from two large operands
                         mask = int("55" * (8 * m), 16)
                         yield Case("mem.arith", ["and", f, hx(a & mask | (1 << (64 * la - 1))), hx((b & (mask << 1)) | (1 << (64 * lb - 2)))])
+    # UBig's Euclidean division family (forwards to the same repr functions) and DivRemAssign (mem::take + div_rem, the
+    # quotient replaces the lhs): lengths across the inline boundary, zero divisor, exact multiples
+    for la in lens:
+        for lb in lens:
+            a = operand(la, rng.choice(["ones", "random", "topone"]))
+            b = operand(lb, rng.choice(["random", "one", "pow2", "highbit"]))
+            if rng.random() < 0.2 and b:
+                a = a - a % b
+            for op in ("divremeuc", "diveuc", "remeuc"):
+                if tier == "thorough" or rng.random() < 0.5:
+                    yield Case("mem.arith", [op, rng.choice(forms), hx(a), hx(b)])
+            yield Case("mem.arith", ["divremassign", rng.choice(["av", "ar"]), hx(a), hx(b)])
+    for f in forms:
+        yield Case("mem.arith", ["divremeuc", f, hx(operand(4, "random")), hx(0)])
+        yield Case("mem.arith", ["remeuc", f, hx(operand(4, "random")), hx(0)])
+    yield Case("mem.arith", ["divremassign", "av", hx(operand(4, "random")), hx(0)])
+    yield Case("mem.arith", ["divremassign", "ar", hx(operand(70, "random")), hx(operand(34, "random"))])
     # divide-and-conquer scratch block inside div_rem_in_lhs
     for (la, lb) in [(66, 33), (70, 33), (100, 40)] + ([(140, 70), (300, 150)] if tier == "thorough" else []):
         for f in forms:
@@ -1515,6 +1563,16 @@ def round5_cases(rng, tier):
             yield Case("mem.arith", ["sqrtrem", "r", hx(k * k - 1), "d:0"])
             yield Case("mem.arith", ["sqrtrem", "r", hx(k * k + 2 * k), "d:0"])
 
+    # ---------------- `!IBig` by value / by reference: all-ones magnitudes carry into a new word (push_resizing; 2 -> 3 words leaves
+    # the inline form), negative powers of two lose a word by sub_one (3 -> 2 words falls back inline)
+    for la in [0, 1, 2, 3, 4, 5, 8, 9, 16, 17, 40]:
+        for pat in ("random", "ones", "pow2", "topone", "one"):
+            for _ in range(reps):
+                a = operand(la, pat)
+                for v in {a, -a, -(a + 1), a + 1 if pat == "ones" else a, -(1 << (64 * la)) if la else 0, (1 << (64 * la)) - 1}:
+                    for f in ("v", "r"):
+                        yield Case("mem.arith", ["inot", f, hx(v), "d:0"])
+
     # ---------------- gcd / igcd / gcd_ext
     glens = [0, 1, 2, 3, 4, 5, 9, 17, 40] if tier == "quick" else [0, 1, 2, 3, 4, 5, 6, 8, 9, 12, 17, 24, 25, 40, 51, 60]
 
@@ -1554,9 +1612,16 @@ def round5_cases(rng, tier):
                                 yield Case("mem.arith", [op, f, hx(x), hx(y)])
                         if rng.random() < 0.3:
                             yield Case("mem.arith", ["igcd", f, hx(rng.choice([1, -1]) * x), hx(rng.choice([1, -1]) * y)])
+                        # IBig gcd_ext (coefficients multiplied by the operand signs) and the mixed UBig/IBig operand forms
+                        if tier == "thorough" or rng.random() < 0.35:
+                            sa, sb = rng.choice([1, -1]), rng.choice([1, -1])
+                            mop = rng.choice(["igcdext", "igcdext", "gcd_ui", "gcd_iu", "gcdext_ui", "gcdext_iu"])
+                            xa = x if mop.endswith("_ui") else sa * x
+                            yb = y if mop.endswith("_iu") else sb * y
+                            yield Case("mem.arith", [mop, f, hx(xa), hx(yb)])
     for f in forms:
         # (0, 0): the documented panic; 0 with a large value: the value itself (a copy / the moved buffer)
-        for op in ("gcd", "gcdext", "igcd"):
+        for op in ("gcd", "gcdext", "igcd", "igcdext", "gcd_ui", "gcdext_iu"):
             yield Case("mem.arith", [op, f, hx(0), hx(0)])
             yield Case("mem.arith", [op, f, hx(0), hx(operand(4, "random"))])
             yield Case("mem.arith", [op, f, hx(operand(4, "random")), hx(0)])
